@@ -404,6 +404,93 @@ Proof.
     apply in_map_iff in Hs. destruct Hs as [c [<- _]]. reflexivity.
 Qed.
 
+Lemma status_values_names_n : forall p l n0, map fst (status_values_n p l n0) = sp_enum_values_n p l n0.
+Proof.
+  intros p [|s r] n0; [reflexivity|]. cbn [status_values_n sp_enum_values_n].
+  change (sp_explicit_zero p s) with (is_explicit_zero p s).
+  destruct (is_explicit_zero p s && (n0 =? 0)); cbn [map fst]; rewrite number_from_names; reflexivity.
+Qed.
+Lemma status_values_names : forall p l, map fst (status_values p l) = sp_enum_values p l.
+Proof. intros p l. apply status_values_names_n. Qed.
+
+
+
+(* ---- "all named from the entity name": exact names ------------------------------------------------------- *)
+Lemma number_from_numbers : forall l i p, map snd (number_from i p l) = map (fun k => i + N.of_nat k) (seq 0 (length l)).
+Proof.
+  induction l as [|s l IH]; intros i p; [reflexivity|]. cbn [number_from map length seq snd]. f_equal; [lia|].
+  rewrite IH, <- seq_shift, map_map. apply map_ext. intros k. lia.
+Qed.
+
+Lemma status_values_numbers : forall p l n0,
+  map snd (status_values_n p l n0) = map N.of_nat (seq 0 (length (status_values_n p l n0))).
+Proof.
+  intros p [|s r] n0; [reflexivity|]. cbn [status_values_n].
+  destruct (is_explicit_zero p s && (n0 =? 0)); cbn [map snd length seq]; f_equal;
+    rewrite number_from_numbers, number_from_length, <- seq_shift, map_map; apply map_ext; intros k; lia.
+Qed.
+
+Theorem spec_names_holds : forall e fl, spec_names e (expand_with e fl).
+Proof.
+  intros e fl. unfold spec_names. split; [|split; [|split; [|split]]].
+  - exists (entity_status_values e). split.
+    + unfold has_enum. apply in_expand_head. unfold status_enum. rewrite cn_status. cbn. auto.
+    + unfold entity_status_values. split; [apply status_values_names_n|apply status_values_numbers].
+  - intros s g l v Hs Hq Hm. rewrite svcs_in_expand_1 in Hs. destruct Hs as [<-|Hs].
+    + unfold query_svc, query_components, service_components in Hm.
+      rewrite svcs_in_app, svcs_in_flat_map in Hm. cbn [flat_map] in Hm. rewrite !svcs_in_method_msgs in Hm.
+      cbn [app svcs_in flat_map N.eqb Pos.eqb map snd method_components sv_methods] in Hm.
+      inversion Hm; subst g l v. cbn [map mt_in mt_out]. unfold query_prefix, sp_query_prefix.
+      rewrite <- !app_assoc. split; reflexivity.
+    + apply in_map_iff in Hs. destruct Hs as [c [<- _]]. discriminate.
+  - rewrite svcs_in_expand_1. cbn [filter].
+    destruct (query_svc_shape e) as [g [l [v [Hs _]]]]. rewrite Hs at 1. cbn [is_command_svc sv_ann].
+    rewrite filter_command_commands. apply Forall2_map_r. intros c _.
+    unfold command_svc. cbn [sv_name sv_methods]. split.
+    + unfold command_service, command_service_name, sp_camel, camel_name.
+      destruct (c_name c) as [n|]; [destruct (has_suffix (bs "Command") n)|]; rewrite <- ?app_assoc; reflexivity.
+    + apply Forall2_map_r. intros m _. cbn [method_components snd mt_in mt_out]. split; [reflexivity|].
+      destruct (md_response m); reflexivity.
+  - intros p Hp Hr. rewrite svcs_in_expand_2 in Hp. destruct Hp as [<-|Hp].
+    + unfold publish_svc, topic_svc, camel_name, sp_camel. cbn [sv_name sv_methods map mt_name mt_in].
+      rewrite <- !app_assoc. repeat split.
+    + apply in_map_iff in Hp. destruct Hp as [sm [<- _]]. discriminate.
+  - rewrite svcs_in_expand_2. cbn [filter publish_svc topic_svc topic_role sv_ann N.eqb Pos.eqb].
+    rewrite filter_role3_summaries. apply Forall2_map_r. intros sm _.
+    unfold summary_svc, topic_svc. cbn [sv_name sv_methods map mt_name mt_in].
+    assert (E : summary_topic_name e sm = sp_summary_name e sm).
+    { unfold summary_topic_name, sp_summary_name, camel_name, sp_camel. destruct (s_name sm); reflexivity. }
+    rewrite E. repeat split.
+Qed.
+
+(* ---- the optional query settings --------------------------------------------------------------------------- *)
+Theorem spec_query_settings_holds : forall e fl,
+  default_filters e (requested_filters e) = Some fl -> spec_query_settings e (expand_with e fl).
+Proof.
+  intros e fl Hfl. unfold spec_query_settings. split.
+  - intros s g l v Hs Hq Hm. rewrite svcs_in_expand_1 in Hs. destruct Hs as [<-|Hs].
+    2:{ apply in_map_iff in Hs. destruct Hs as [c [<- _]]. discriminate. }
+    unfold query_svc, query_components, service_components in Hm.
+    rewrite svcs_in_app, svcs_in_flat_map in Hm. cbn [flat_map] in Hm. rewrite !svcs_in_method_msgs in Hm.
+    cbn [app svcs_in flat_map N.eqb Pos.eqb map snd method_components sv_methods] in Hm.
+    inversion Hm; subst g l v. cbn [mt_out].
+    eexists. eexists. eexists.
+    split; [apply in_expand_query; unfold query_components, service_components; cbn [map fst method_components flat_map app]; right; left; reflexivity|].
+    split; [reflexivity|].
+    split; [apply in_expand_query; unfold query_components, service_components; cbn [map fst method_components flat_map app]; do 3 right; left; reflexivity|].
+    split; [reflexivity|].
+    split; [apply in_expand_query; unfold query_components, service_components; cbn [map fst method_components flat_map app]; do 5 right; left; reflexivity|].
+    split; [reflexivity|]. cbn [m_fields]. unfold sp_events_in_get, local_obj, snake_name. rewrite cn_state, cn_event.
+    split; [|split].
+    + destruct (match e_query e with Some q => q_events_in_get q | None => false end); reflexivity.
+    + reflexivity.
+    + reflexivity.
+  - exists (state_msg e fl). eexists.
+    split; [unfold has_msg; apply in_expand_head; cbn; auto|]. cbn [state_msg m_name m_fields]. rewrite cn_state.
+    split; [reflexivity|]. split; [do 3 right; left; reflexivity|]. cbn [f_json f_filter]. split; [reflexivity|].
+    destruct (default_filters_spec e _ fl Hfl) as [_ ->]. reflexivity.
+Qed.
+
 (* ---- the core specification holds for everything the model compiles --------------------------------------- *)
 Theorem spec_core_holds : forall e cs, compile e = Ok cs -> C17_spec_core e cs.
 Proof.
